@@ -235,7 +235,9 @@ class SymCtx:
         return V.ABytes(arr, 0, n)
 
     def afile(self, content, pos):
-        from .stdlib import AFile
+        from .stdlib import AFile, SSIZE_MAX
+        # no file object is longer than the largest position it can be asked for (C ssize_t / off_t)
+        self.p.assume(content.length <= SSIZE_MAX)
         return AFile(content.arr, content.length, pos)
 
     def aout(self, pos):
